@@ -688,7 +688,7 @@ fn cli_case(ctx: &Ctx, ch: &mut Ch, scratch: &cli::Scratch) -> Outcome {
 }
 
 pub fn def(tier: Tier) -> CheckDef {
-    let rounds = tier.pick(6, 100);
+    let rounds = tier.pick(6, 60);
     CheckDef {
         id: "C19",
         level: "exploration",
@@ -696,6 +696,7 @@ pub fn def(tier: Tier) -> CheckDef {
         assumptions: vec!["int / bool results of `gram run` print identically for both programs (no names involved)"],
         idle_limit_s: 180,
         needs_cli: true,
+        fuzz: None,
         parts: vec![
             Part {
                 name: "rewrites",
@@ -703,7 +704,7 @@ pub fn def(tier: Tier) -> CheckDef {
                 run: Box::new(|ctx, r| ctx.prop("rewrites", r, 400, 700, rewrite_case)),
                 replay: Some(Box::new(|ctx, inp| match inp {
                     ReplayInput::Choices(c) => rewrite_case(ctx, &mut Ch::new(c)),
-                    ReplayInput::Text(_) => Err(Failure::new("this part replays from choices", "")),
+                    _ => Err(Failure::new("this part replays from choices", "")),
                 })),
             },
             Part {
@@ -718,7 +719,7 @@ pub fn def(tier: Tier) -> CheckDef {
                         let scratch = cli::Scratch::new("c19-replay");
                         cli_case(ctx, &mut Ch::new(c), &scratch)
                     }
-                    ReplayInput::Text(_) => Err(Failure::new("this part replays from choices", "")),
+                    _ => Err(Failure::new("this part replays from choices", "")),
                 })),
             },
         ],
